@@ -106,21 +106,24 @@ func CountedLoops(fn *ssa.Function) []*CountedLoop {
 				break
 			}
 			bt, ok := ph.Type().Underlying().(*types.Basic)
-			if !ok || bt.Info()&types.IsInteger == 0 || len(ph.Edges) != 2 {
+			if !ok || bt.Info()&types.IsInteger == 0 || len(ph.Edges) < 2 {
 				continue
 			}
-			// init constant, step +1 on the back edge
+			// one initial constant; step +1 on every back edge
 			var init int64
-			initOK, stepOK := false, false
+			nInit, nBack, stepOK := 0, 0, true
+			initOK := false
 			for i, ed := range ph.Edges {
 				if g.Dominates(H, H.Preds[i]) {
+					nBack++
 					k, ok := offsetFrom(ed, ph, 0)
-					stepOK = ok && k == 1
+					stepOK = stepOK && ok && k == 1
 				} else {
+					nInit++
 					init, initOK = ConstInt(ed)
 				}
 			}
-			if !initOK || !stepOK {
+			if !initOK || !stepOK || nInit != 1 || nBack == 0 {
 				continue
 			}
 			// the test: Phi + d < len(X) (any spelling), true => stay
@@ -266,6 +269,13 @@ func (l *CountedLoop) ElementOf(v ssa.Value) (field string, ok bool) {
 		return "", false
 	}
 	switch a := ld.X.(type) {
+	case *ssa.Alloc:
+		// a local copy of the element (`for _, x := range s` with x spilled), read whole
+		if st := onlyStore(a); st != nil && l.Contains(st.Block()) {
+			if f, ok := l.ElementOf(st.Val); ok && f == "" {
+				return "", true
+			}
+		}
 	case *ssa.IndexAddr:
 		if sameLoaded(a.X, l.Over) && l.IsIndex(a.Index) {
 			return "", true
@@ -305,3 +315,21 @@ func sameLoaded(a, b ssa.Value) bool {
 	lb, ok2 := b.(*ssa.UnOp)
 	return ok1 && ok2 && la.Op == token.MUL && lb.Op == token.MUL && la.X == lb.X
 }
+
+
+// onlyStore: the single whole-value store into a local, or nil.
+func onlyStore(al *ssa.Alloc) *ssa.Store {
+	var only *ssa.Store
+	for _, ref := range *al.Referrers() {
+		if st, ok := ref.(*ssa.Store); ok && st.Addr == ssa.Value(al) {
+			if only != nil {
+				return nil
+			}
+			only = st
+		}
+	}
+	return only
+}
+
+// OnlyStore is the exported form.
+func OnlyStore(al *ssa.Alloc) *ssa.Store { return onlyStore(al) }
